@@ -64,6 +64,27 @@ def cases(shard, rnd):
             raw = rnd.randbytes(rnd.choice([1, 8, 255, 4096]))
             yield {'t': 'body', 'body': bytearray(raw) if k % 2 else
                    memoryview(raw), 'ch': gf.rchannel(rnd)}
+        # live dictionary: constants of the tree under test as body lengths,
+        # as body content (whole, leading, trailing), as channels
+        from ..gen import magic
+        mp = magic.pool()
+        k = 0
+        for n in mp.lengths:
+            k += 1
+            if n >= 1 and k % shard['n'] == shard['i']:
+                yield {'t': 'body', 'body': rnd.randbytes(n),
+                       'ch': gf.rchannel(rnd)}
+        for m in mp.bytes:
+            k += 1
+            if m and k % shard['n'] == shard['i']:
+                pad = rnd.randbytes(rnd.randint(1, 40))
+                for body in (m, m + pad, pad + m, pad + m + pad):
+                    yield {'t': 'body', 'body': body, 'ch': gf.rchannel(rnd)}
+        for c in mp.ints_in(0, 65535):
+            k += 1
+            if k % shard['n'] == shard['i']:
+                yield {'t': 'body', 'body': rnd.randbytes(rnd.randint(1, 9)),
+                       'ch': c}
         for _ in range(shard['rand']):
             n = rnd.choice([1, 2, 3, 7, 8, 9, rnd.randint(1, 600)])
             b = bytearray(rnd.randbytes(n))
@@ -83,7 +104,10 @@ def cases(shard, rnd):
             yield {'t': 'ph', 'ver': tri}
         # every combination of the small / historic octet values (AMQP 0-8,
         # 0-9, 0-9-1, 0-10, 1-0 and the protocol ids 1, 2, 3 all live here)
-        small = list(range(0, 12)) + [91, 127, 128, 255]
+        from ..gen import magic
+        small = sorted(set(list(range(0, 12)) + [91, 127, 128, 255]
+                           + [o for o in magic.pool().base_ints
+                              if 0 <= o <= 255][:30]))
         for a in small:
             for b in small:
                 for c in small:
